@@ -672,6 +672,9 @@ pub fn models(tier: Tier, seed: u64) -> Vec<Box<dyn DynModel>> {
         bounded_cross(M10T::<Bls12381G1Impl>::new(tier, seed), 3, depth_t::<Bls12381G1Impl>),
         bounded_cross(M10T::<Bls12381G2Impl>::new(tier, seed), 3, depth_t::<Bls12381G2Impl>),
     ]
+    .into_iter()
+    .chain(crate::props::tsurf::models("C10", tier, seed))
+    .collect()
 }
 
 pub fn describe(_tier: Tier, r: &mut Report) {
